@@ -133,8 +133,9 @@ def _mk_handler(h):
     return t
 
 
+HANDLER_TASKS = {}
 for _h in HANDLER_MSGS:
-    _mk_handler(_h)
+    HANDLER_TASKS[_h] = _mk_handler(_h)
 
 
 @task("rewindable.setter", PROP, functions=[f"{RE}.rewindable", f"{RE}._rewindable"],
